@@ -350,8 +350,20 @@ def _loc_or_inconclusive(ctx, kind, n, cache, res):
         loc = locate(ctx, kind, n)
         cache[key] = loc
         if not loc.ok:
-            res["inconclusive"].append({"why": "context self-check: " + loc.why, "context": ctx["id"], "kind": kind,
-                                        "pre": ctx["pre"], "post": ctx["post"]})
+            if loc.why.startswith("reference raised"):
+                res["inconclusive"].append({"why": "context self-check: " + loc.why, "context": ctx["id"], "kind": kind,
+                                            "pre": ctx["pre"], "post": ctx["post"]})
+            else:
+                # two *harmless* payloads ('a…' / 'b…') of this literal kind already change more than the one
+                # literal (or a comment's text is visible at all): that is the property failing, not the harness
+                m = P.LITERAL_KINDS[kind][1] or 1
+                res["violations"].append({
+                    "mechanism": f"harmless-payloads-diverge:{kind}",
+                    "what": (f"{P.build_program(ctx, kind, 'a' * m)!r} vs {P.build_program(ctx, kind, 'b' * m)!r}: "
+                             f"{loc.why} (literal kind {kind}, context {ctx['id']})"),
+                    "unit": {"kind": "single", "ctx": ctx["id"], "lit": kind, "payload": "b" * m},
+                    "literal_kind": kind,
+                })
     return cache[key]
 
 
@@ -424,9 +436,8 @@ def _run_single(unit, res):
         ctx = {"id": "random", "group": "random", "pre": unit["pre"], "post": unit["post"],
                "open_literal": unit.get("open_literal", False)}
     kind, payload = unit["lit"], unit["payload"]
-    loc = locate(ctx, kind, len(payload))
+    loc = _loc_or_inconclusive(ctx, kind, len(payload), {}, res)
     if not loc.ok:
-        res["inconclusive"].append({"why": "context self-check: " + loc.why})
         return
     check_case(ctx, kind, payload, loc, res, lambda p: unit)
     res["evals"] += 1
